@@ -252,7 +252,7 @@ pub fn rseq(
         }
         // on its own thread with a real-time limit: a changed tree may block inside a pass
         let (tx, rx) = std::sync::mpsc::channel();
-        let (sh, ba, fp, md) = (shell.to_string(), base_abs.clone(), root.join(&s.path), mode.clone());
+        let (sh, ba, fp, md) = (shell.to_string(), base_abs.clone(), root.join(tree::osp(&s.path)), mode.clone());
         let _ = std::thread::Builder::new().name("reference".into()).spawn(move || {
             let res = std::panic::catch_unwind(|| txtpp::verif::preprocess_one(&sh, &ba, &fp, md, trailing_newline));
             let _ = tx.send(res);
@@ -294,7 +294,7 @@ pub fn rseq(
     }
     for g in a.gen_all() {
         // regular files only: a generated path may be a symlink to a device (fault F6)
-        let p = root.join(&g);
+        let p = root.join(tree::osp(&g));
         let regular = std::fs::symlink_metadata(&p)
             .map(|m| m.file_type().is_file())
             .unwrap_or(false);
